@@ -292,6 +292,23 @@ def s_commuted(rng, nval, op):
     return _mk(prog, "commuted_operands", rng, nval, edges={"a": rngs, "b": rngs}, small=True)
 
 
+def s_merge_operand(rng, nval):
+    """`(i0 + i1) OP i0`: a wire merge as one operand, one of its members as the other (listed finding)."""
+    types = gen.Types(rng)
+    t = types.fresh()
+    n = rng.randint(2, 3)
+    prog = [["input", "i%d" % i, t, rng.randint(-9, 20)] for i in range(n)]
+    chain = ["v", "i0"]
+    for i in range(1, n):
+        chain = ["b", "+", chain, ["v", "i%d" % i]]
+    op = rng.choice(["-", "*", "/", "%", "<", ">=", "=="])
+    member = ["v", "i%d" % rng.randrange(n)]
+    l, r = (chain, member) if rng.random() < 0.7 else (member, chain)
+    e = _node(op, l, r)
+    prog.append(["sig", "x", ["p", e, types.fresh()]])
+    return _mk(prog, "merge_operand_with_own_member", rng, nval)
+
+
 def s_unary(rng, nval):
     types = gen.Types(rng)
     prog = [["input", "a", types.fresh(), gen.rand_value(rng, True)], ["input", "b", types.fresh(), gen.rand_value(rng, True)]]
@@ -394,7 +411,7 @@ def s_sel_same_typed(rng, nval):
 
 STRATA = [
     (s_op_single, 6), (s_prec_pairs, 6), (s_power_chain, 1), (s_dag_distinct, 8), (s_dag_same, 2),
-    (s_two_producers, 3), (s_self_both, 1), (s_wire_merge, 2), (s_wire_merge_repeat, 1), (s_logic_chain, 4), (s_logic_nearbool, 3), (s_unary, 1),
+    (s_two_producers, 3), (s_self_both, 1), (s_wire_merge, 2), (s_wire_merge_repeat, 1), (s_merge_operand, 1), (s_logic_chain, 4), (s_logic_nearbool, 3), (s_unary, 1),
     (s_proj, 2), (s_sel, 3), (s_sel_same_typed, 3), (s_const_heavy, 2), (s_untyped, 1), (s_literal_left, 1),
 ]
 
@@ -482,6 +499,23 @@ def _dedupe_merge_members(prog, vals):
                     changed = True
                 else:
                     seen.add(t[1])
+    # a merge (`+` chain) as one operand of another operator with one of its members as the other operand
+    def visit(e):
+        nonlocal changed
+        if e[0] in ("b", "c") and e[1] != "+":
+            for a, b in ((2, 3), (3, 2)):
+                terms = []
+                _plus_terms(e[a], terms)
+                names = {t_[1] for t_ in terms if t_[0] == "v"}
+                if len(terms) >= 2 and e[b][0] == "v" and e[b][1] in names and e[b][1] in decl:
+                    new_ = "%s_dup%d" % (e[b][1], len(dup_of))
+                    dup_of[new_] = e[b][1]
+                    e[b][1] = new_
+                    changed = True
+
+    for s_ in p2:
+        if s_[0] == "sig":
+            lang.walk_expr(s_[2], visit)
     if not changed:
         return None, None
     extra = [["input", new, decl[old][2], decl[old][3]] for new, old in dup_of.items()]
